@@ -5,11 +5,14 @@ package main
 import (
 	"encoding/json"
 	"fmt"
+	"net/http/httptest"
 	"sort"
 	"strconv"
 	"strings"
 	"sync"
 	"time"
+
+	"github.com/gorilla/websocket"
 
 	"github.com/safing/portbase/api"
 	"github.com/safing/portbase/database"
@@ -30,6 +33,53 @@ type ext struct {
 	rtDB    string
 	prov    *logProvider
 	push    runtime.PushFunc
+
+	// the transport the case's `api` operations use (op `apivia`): "" / "handle" = a DatabaseAPI from
+	// api.CreateDatabaseAPI driven through Handle; "ws" = a websocket connection to the HTTP handler of
+	// /api/database/v1 (startDatabaseWebsocketAPI, which builds its own DatabaseAPI) served by a test server
+	via   string
+	wsSrv *httptest.Server
+	ws    *websocket.Conn
+	wsErr string
+}
+
+// transports counts the API operations per constructor of a DatabaseAPI (evidence).
+var (
+	transports    = map[string]int{}
+	transportLock sync.Mutex
+)
+
+// wsConn returns the case's websocket connection to the database API, opening it on first use.
+func (x *ext) wsConn(e *dbx.Exec) *websocket.Conn {
+	if x.ws != nil || x.wsErr != "" {
+		return x.ws
+	}
+	if x.replies == nil {
+		x.replies = make(chan string, 4096)
+	}
+	x.wsSrv = httptest.NewServer(api.VerifDatabaseWebsocketHandler())
+	conn, _, err := websocket.DefaultDialer.Dial("ws"+strings.TrimPrefix(x.wsSrv.URL, "http"), nil) //nolint:bodyclose
+	if err != nil {
+		x.wsErr = "err:websocket-dial:" + strings.Join(strings.Fields(err.Error()), "_")
+		x.wsSrv.Close()
+		return nil
+	}
+	x.ws = conn
+	replies := x.replies
+	go func() {
+		for {
+			_, msg, err := conn.ReadMessage()
+			if err != nil {
+				return
+			}
+			replies <- string(msg)
+		}
+	}()
+	e.Closers = append(e.Closers, func() {
+		_ = conn.Close()
+		x.wsSrv.Close()
+	})
+	return conn
 }
 
 // logProvider is the value provider of the injected runtime database: it keeps what Set receives under the
@@ -66,7 +116,9 @@ var rtCounter int
 
 func (x *ext) api(e *dbx.Exec) *api.DatabaseAPI {
 	if x.dbapi == nil {
-		x.replies = make(chan string, 4096)
+		if x.replies == nil {
+			x.replies = make(chan string, 4096)
+		}
 		a := api.CreateDatabaseAPI(func(data []byte) { x.replies <- string(data) })
 		x.dbapi = &a
 	}
@@ -113,7 +165,26 @@ func showAPIRecord(dbName, key, data string) string {
 func (x *ext) send(e *dbx.Exec, verb, rest string) (id string) {
 	x.opID++
 	id = strconv.Itoa(x.opID)
-	x.api(e).Handle([]byte(id + "|" + verb + "|" + rest))
+	msg := []byte(id + "|" + verb + "|" + rest)
+	transportLock.Lock()
+	if x.via == "ws" {
+		transports["startDatabaseWebsocketAPI (websocket connection)"]++
+	} else {
+		transports["CreateDatabaseAPI (Handle)"]++
+	}
+	transportLock.Unlock()
+	if x.via == "ws" {
+		conn := x.wsConn(e)
+		if conn == nil {
+			x.replies <- id + "|error|" + x.wsErr
+			return id
+		}
+		if err := conn.WriteMessage(websocket.TextMessage, msg); err != nil {
+			x.replies <- id + "|error|websocket-write:" + err.Error()
+		}
+		return id
+	}
+	x.api(e).Handle(msg)
 	return id
 }
 
@@ -195,6 +266,13 @@ func (x *ext) do(e *dbx.Exec, f []string) (string, bool) {
 		c.Lock()
 		x.push(c)
 		c.Unlock()
+		return "ok", true
+	case "apivia":
+		// apivia <handle|ws>: which constructor of a DatabaseAPI serves the `api` operations that follow
+		if len(f) != 2 || (f[1] != "handle" && f[1] != "ws") {
+			return "bad-op", true
+		}
+		x.via = f[1]
 		return "ok", true
 	case "api":
 		if len(f) < 3 {
@@ -343,6 +421,14 @@ func (g *gen) history(emit func(hxlib.Case), backend string, shadow bool) {
 		sh = "1"
 	}
 	lines := []string{"cfg " + backend + " " + sh}
+	// every constructor of a DatabaseAPI is driven: the in-process one through Handle, the websocket endpoint
+	// through a real connection (a third of the histories)
+	via := "handle"
+	if rng.Intn(3) == 0 {
+		via = "ws"
+		lines = append(lines, "apivia ws")
+	}
+	g.r.Count("api-transport:" + via)
 	pOpts := []string{"0 0 0 0", "0 0 0 0", "1 0 0 0", "0 1 0 0"}[rng.Intn(4)]
 	lines = append(lines, "if P 1 1 n "+pOpts)
 	// A read cache must be used exclusively (it does not notice writes of other interfaces): in a cached history
@@ -567,6 +653,12 @@ func (g *gen) runtimeCase(emit func(hxlib.Case)) {
 	rng := g.r.Rng
 	sh := g.pick([]string{"0", "1"})
 	lines := []string{"cfg h 0", "rtinit " + sh}
+	if rng.Intn(3) == 0 {
+		lines = append(lines, "apivia ws")
+		g.r.Count("api-transport:ws")
+	} else {
+		g.r.Count("api-transport:handle")
+	}
 	keys := []string{"p/a", "p/ab", "p/b", "p/c/d", "p/a/x"}
 	prefixes := []string{"-", "p", "p/", "p/a", "p/c/"}
 	for _, a := range append(actors, struct{ id, l, i string }{"P", "1", "1"}) {
@@ -773,6 +865,8 @@ func generate(r *hxlib.Run, emit0 func(hxlib.Case)) {
 		for _, sh := range []string{"0", "1"} {
 			emit(hxlib.Case{Lines: append([]string{"cfg " + b + " " + sh}, base...), NonTrivial: true, Kind: "regression"})
 		}
+		// the same walk with the API operations over a real websocket connection
+		emit(hxlib.Case{Lines: append([]string{"cfg " + b + " 0", "apivia ws"}, base...), NonTrivial: true, Kind: "regression:websocket-api"})
 	}
 	n := r.Budget(400, 6000)
 	for i := 0; i < n; i++ {
@@ -1097,7 +1191,7 @@ func main() {
 		Prop:     "C03",
 		Rule: "a case is one history on one backend (hashmap/bbolt/fstree/badger x shadow-delete) or on an injected runtime database (runtime.Registry whose value provider keeps and logs every record its Set receives, starts with records of all four flag combinations and also changes and pushes values on its own; all actors read and write there: put, put-new, delete, expiry and flag setters, attribute insert, get-and-put-back, batch, purge, API create/update/insert/delete; the Set log and the feeds are drained after every step and the monitor checks that no Set reaches the provider for a key whose current record is visible and not permitted for the actor of that step): a privileged interface (sometimes with AlwaysMakeSecret / AlwaysMakeCrownjewel) writes records with all four flag combinations, each carrying a unique marker string; interfaces with Local/Internal = 00, 01, 10 (one of them possibly with a read cache, then used exclusively) and the database API (NewInterface(nil)) get, test existence, query, put, put-new, delete, set expiry, re-flag, insert attributes, batch-write, purge and subscribe; feeds are drained after every step. Outputs are compared with the compiled Lean model line by line; the monitor checks that no output of a non-privileged actor contains the marker of a record version that actor may not see, and replays the case on a reference map with the permission rules (denied / exists-only / no write-through). Regression cases walk every path once per backend. Parked-query cases (every 10th round, per backend, implementation only): 4-60 records below one prefix, some already protected; a non-privileged query whose consumer does not read until the result buffer is full (or the executor is done), then the privileged interface marks a subset secret / crown jewel / both and returns, then the consumer reads on; records are rendered as they arrive: no marker of a record protected before the query began, and from the (buffer capacity + 2)-th arrival on no record that itself carries a flag the interface may not see. Distinct by the hash of the lines.",
 		Extra: func(*hxlib.Run) map[string]any {
-			return map[string]any{"unprivileged_outcomes": outcomes}
+			return map[string]any{"unprivileged_outcomes": outcomes, "api_operations_per_constructor": transports}
 		},
 		Generate: generate,
 		NewExec: func(*hxlib.Run) hxlib.Exec {
